@@ -104,12 +104,17 @@ func parseInts(s string) []int {
 	if !v.isList {
 		panic(badOp{})
 	}
-	out := make([]int, 0, len(v.l))
+	// every input slice has SPARE CAPACITY holding junk (9001, 9002, 9003): code that confuses len with cap, or reads past the logical end,
+	// shows up as a wrong result instead of going unnoticed (a caller's `buf[:n]` is the normal case, not the exception)
+	out := make([]int, 0, len(v.l)+3)
 	for _, x := range v.l {
 		if x.isList {
 			panic(badOp{})
 		}
 		out = append(out, x.n)
+	}
+	for i, tail := 0, out[len(out):cap(out)]; i < len(tail); i++ {
+		tail[i] = 9001 + i
 	}
 	return out
 }
@@ -124,9 +129,12 @@ func parseIntss(s string) [][]int {
 		if !x.isList {
 			panic(badOp{})
 		}
-		row := make([]int, 0, len(x.l))
+		row := make([]int, 0, len(x.l)+2)
 		for _, y := range x.l {
 			row = append(row, y.n)
+		}
+		for i, tail := 0, row[len(row):cap(row)]; i < len(tail); i++ {
+			tail[i] = 9101 + i
 		}
 		out = append(out, row)
 	}
